@@ -110,7 +110,18 @@ func genStream(rng *rand.Rand) stream {
 		s.Bytes = append(s.Bytes, enc(p)...)
 		s.Desc = append(s.Desc, clip(ref.Canon(p)))
 	}
-	switch k := rng.Intn(23); {
+	switch k := rng.Intn(24); {
+	case k == 23:
+		// more retained messages than a session queue and window hold, then a
+		// subscription to all of them by a client that never acknowledges
+		s.Kind = "retained-flood-then-subscribe"
+		id := fmt.Sprintf("f%d", rng.Intn(100000))
+		add(&packet.Connect{ClientID: id, CleanSession: true, Version: 4})
+		for i := 1; i <= 150; i++ {
+			add(&packet.Publish{ID: packet.ID(i), Message: packet.Message{Topic: fmt.Sprintf("flood/%s/%d", id, i), QOS: 1, Retain: true, Payload: []byte("r")}})
+		}
+		add(&packet.Subscribe{ID: 200, Subscriptions: []packet.Subscription{{Topic: "flood/" + id + "/#", QOS: 1}}})
+		add(&packet.Pingreq{})
 	case k >= 20:
 		// a client that resumes its persistent session and finishes (or repeats)
 		// handshakes begun on the earlier connection
@@ -473,9 +484,97 @@ func checkAllClosed(r *h.Run, b *bh.Broker, label string) {
 	}
 }
 
+// floodSubscriber: a client stores more retained messages than its session
+// queue and window hold, subscribes to all of them and never acknowledges. With
+// a long token timeout (60 s) nothing but the broker's own handling ends that
+// client; two witnesses must keep exchanging messages all the while.
+func floodSubscriber(r *h.Run, idx int) {
+	if r.TooMany() {
+		return
+	}
+	r.Journal("C14 flood subscriber #%d", idx)
+	b := bh.NewBroker()
+	b.Mon.Inner.ClientTokenTimeout = 60 * time.Second
+	fail := func(key, msg string) {
+		r.Violation(key, fmt.Sprintf("flood subscriber #%d: %s", idx, msg), map[string]interface{}{"detail": msg, "event_log_tail": b.Log.Dump(100)})
+	}
+	w1, _, c1, e1 := b.Connect("witness-1", bh.ConnectOpts{ID: "fw1", Clean: true, AutoAck: true}, nil)
+	w2, _, c2, e2 := b.Connect("witness-2", bh.ConnectOpts{ID: "fw2", Clean: true, AutoAck: true}, nil)
+	if e1 != nil || e2 != nil || c1 == nil || c2 == nil {
+		r.Inconclusive("flood subscriber: witnesses could not connect")
+		b.Shutdown()
+		return
+	}
+	_ = w2.Send(&packet.Subscribe{ID: 1, Subscriptions: []packet.Subscription{{Topic: "wit/#", QOS: 1}}})
+	if _, err := bh.AwaitAck(w2, packet.SUBACK, 1); err != nil {
+		r.Inconclusive("flood subscriber: witness SUBACK")
+		b.Shutdown()
+		return
+	}
+	hp, _, hca, err := b.Connect("hostile", bh.ConnectOpts{ID: "flooder", Clean: idx%2 == 0}, nil)
+	if err != nil || hca == nil {
+		r.Inconclusive("flood subscriber: hostile could not connect")
+		b.Shutdown()
+		return
+	}
+	nret := 130 + idx%3*40
+	q := packet.QOS(1 + idx%2)
+	for i := 1; i <= nret; i++ {
+		_ = hp.Send(&packet.Publish{ID: packet.ID(i), Message: packet.Message{Topic: fmt.Sprintf("flood/%d", i), QOS: 1, Retain: true, Payload: []byte("r")}})
+	}
+	_ = hp.Send(&packet.Subscribe{ID: 9999, Subscriptions: []packet.Subscription{{Topic: "flood/#", QOS: q}}})
+	// wait until the broker is dealing with that subscription
+	reached := false
+	for w := 0; w < 40000 && !reached; w++ {
+		for _, e := range b.Log.Events() {
+			if e.Who == "hostile" && e.Kind == "hook:Subscribe:call" {
+				reached = true
+				break
+			}
+		}
+		if !reached {
+			time.Sleep(500 * time.Microsecond)
+		}
+	}
+	if !reached {
+		r.Inconclusive(fmt.Sprintf("flood subscriber #%d: the SUBSCRIBE never reached the backend", idx))
+		go b.Shutdown()
+		return
+	}
+	// the witnesses go on: five numbered messages must arrive
+	for i := 0; i < 5; i++ {
+		_ = w1.Send(&packet.Publish{ID: packet.ID(100 + i), Message: packet.Message{Topic: "wit/x", QOS: 1, Payload: []byte(fmt.Sprintf("w%d", i))}})
+	}
+	ok := w2.WaitCond(bh.Watchdog, func(all []packet.Generic) bool {
+		n := 0
+		for _, g := range all {
+			if pp, is := g.(*packet.Publish); is && pp.Message.Topic == "wit/x" {
+				n++
+			}
+		}
+		return n >= 5
+	})
+	if !ok {
+		confirmed, stacks := stuck.Confirm(time.Second, b.Log.Len, "github.com/256dpi/gomqtt/broker")
+		if confirmed {
+			fail("broker-stalled-by-client", fmt.Sprintf("a client with %d retained messages subscribed to all of them without acknowledging; the witnesses' messages have not been delivered for 20 s and broker goroutines are parked, e.g.\n%s", nret, stacks[0]))
+		} else {
+			r.Inconclusive(fmt.Sprintf("flood subscriber #%d: witnesses slow, no confirmed stuck state", idx))
+		}
+		go b.Shutdown()
+		return
+	}
+	hp.Close()
+	w1.Close()
+	w2.Close()
+	b.Shutdown()
+	r.Eval()
+	r.NonTrivial(fmt.Sprintf("flood:%d", idx))
+}
+
 func TestCheck(t *testing.T) {
 	r := h.New("C14", "exploration")
-	r.Rule("hostile peers that always read send byte streams of 8 kinds {valid packets in any order with small/repeating ids and hostile topics/filters (empty, wildcard-bearing, NUL-bearing, 64 KiB, deep), no CONNECT first, mutated/truncated frames, garbage, oversized packet, connect/disconnect storms on one id, hostile wills}, 6 at a time against one broker with backend-boundary perturbation, while two witnesses exchange numbered QoS 0/1/2 messages and PINGs after every group; every hostile connection must reach Closed() with Setup/Terminate paired; backend bookkeeping must show only the witnesses; separately MemoryBackend.Close fired at every backend hook-call index of a running session, every backend hook failing at its k-th call, and a takeover hitting KillTimeout through a slow Terminate. Process death is detected by the driver from the journal. Non-trivial = hostile connections that got past CONNECT (Setup succeeded); distinct by connection")
+	r.Rule("hostile peers that always read send byte streams of 10 kinds {retained flood (150 retained QoS 1 messages, then a subscription to all of them, never acknowledged), resumed sessions finishing handshakes, valid packets in any order with small/repeating ids and hostile topics/filters (empty, wildcard-bearing, NUL-bearing, 64 KiB, deep), no CONNECT first, mutated/truncated frames, garbage, oversized packet, connect/disconnect storms on one id, hostile wills}, 6 at a time against one broker with backend-boundary perturbation, while two witnesses exchange numbered QoS 0/1/2 messages and PINGs after every group; every hostile connection must reach Closed() with Setup/Terminate paired; backend bookkeeping must show only the witnesses; separately MemoryBackend.Close fired at every backend hook-call index of a running session, every backend hook failing at its k-th call, a takeover hitting KillTimeout through a slow Terminate, and a client that stores 130-210 retained messages, subscribes to all of them and never acknowledges while the token timeout is 60 s (the witnesses' traffic must go on). Process death is detected by the driver from the journal. Non-trivial = hostile connections that got past CONNECT (Setup succeeded); distinct by connection")
 	r.Assume("hostile peers keep reading (a peer that stops reading is the recorded C13 mechanism) and never use a witness's client id")
 	nb := r.Pick(24, 500)
 	per := 36
@@ -556,6 +655,10 @@ func TestCheck(t *testing.T) {
 		checkAllClosed(r, b, label)
 		r.Eval()
 	}
+	// ---- a client that floods itself with retained messages
+	nfl := r.Pick(4, 40)
+	h.Parallel(nfl, 4, func(i int) { floodSubscriber(r, i) })
+	r.Count("flood_subscriber_runs", int64(nfl))
 	// ---- goroutine census: nothing of the repository may still be running
 	time.Sleep(50 * time.Millisecond)
 	left := stuck.Parked(stuck.Dump(), "github.com/256dpi/gomqtt/")
